@@ -181,6 +181,32 @@ func Gen(t *rapid.T, backend sim.Backend, nClients int, opts ...Options) (keys [
 				}
 			}
 			seq = append(seq, s)
+			if s.Op == "aggr-start" {
+				// a whole statement: 1-3 attempts of 1-2 lock calls over a small key set with varying options, ended by
+				// Done or Cancel (the single aggr-* ops above still produce the irregular sequences)
+				stmtKeys := []string{key("sk"), key("sk")}
+				for a := rapid.IntRange(1, 3).Draw(t, "attempts"); a > 0; a-- {
+					for c := rapid.IntRange(1, 2).Draw(t, "calls"); c > 0; c-- {
+						l := &sim.Step{Txn: i, Op: "lock", Keys: []string{rapid.SampledFrom(stmtKeys).Draw(t, "lk")}}
+						if rapid.IntRange(0, 3).Draw(t, "two") == 0 {
+							l.Keys = append(l.Keys, rapid.SampledFrom(stmtKeys).Draw(t, "lk2"))
+						}
+						switch rapid.IntRange(0, 3).Draw(t, "lockmode") {
+						case 1:
+							l.ReturnValues = true
+						case 2:
+							l.CheckExistence = true
+						case 3:
+							l.ReturnValues, l.LockOnlyIfExists = true, true
+						}
+						seq = append(seq, l)
+					}
+					if a > 1 {
+						seq = append(seq, &sim.Step{Txn: i, Op: "aggr-retry"})
+					}
+				}
+				seq = append(seq, &sim.Step{Txn: i, Op: rapid.SampledFrom([]string{"aggr-done", "aggr-done", "aggr-cancel"}).Draw(t, "stmtend")})
+			}
 		}
 		end := &sim.Step{Txn: i, Op: "commit"}
 		if o.Aggressive {
@@ -334,6 +360,10 @@ func Run(backend sim.Backend, nStores int, batch1 bool, conc1 bool, keys, splits
 			tail = append(tail, sim.DescribeEntry(e))
 		}
 		res.Hung = fmt.Sprintf("case did not finish within 60 s; log:\n    %s\n  last RPCs:\n    %s\n  goroutines:\n%s", strings.Join(w.Log, "\n    "), strings.Join(tail, "\n    "), sim.GoroutineDump())
+		return
+	}
+	if r := cl.Runaway(); r != "" {
+		res.Viol = append(res.Viol, sim.Violation{Rule: "termination", Msg: r})
 		return
 	}
 	if failMsg != "" {
